@@ -1,6 +1,6 @@
 (** * Typing.ProofsInject — an ill-typed node makes the whole program ill-typed, wherever it sits (property C05). *)
 From Coq Require Import ZArith List Bool Lia.
-From ErgV Require Import gen.Sigs CoreErg.Syntax CoreErg.Sem Typing.Types Typing.Check Typing.Inject Typing.ProofsSound.
+From ErgV Require Import gen.Sigs CoreErg.Syntax CoreErg.Sem Typing.Types Typing.Check Typing.Inject Typing.ProofsBasic.
 Import ListNotations.
 Open Scope Z_scope.
 
